@@ -12,6 +12,7 @@ From stdpp Require Import gmap numbers list.
 From Coq Require Import ZArith String.
 Require Import Model.Bytes Model.Bank Model.Hashes Model.L1 Model.TraceL1.
 Require Import Proofs.L1DepLemmas Proofs.C01Proofs.
+Require Proofs.C10Proofs.
 
 (* The ledger: after any history the escrow balance of bridge b in denom d equals the initial
    balance + the accepted deposits into b of d + the plain credits to the escrow address (bank
@@ -69,6 +70,18 @@ Theorem C01_other_escrow_untouched : ∀ c e s m s' r b b' d,
   (getb (bk s) (escrow c b') d ≤ getb (bk s') (escrow c b') d)%Z.
 Proof. exact c01_other_escrow_untouched. Qed.
 
+(* In every state reachable from a genesis (initial state with arbitrary balances) nothing is
+   recorded under ids that have not been assigned yet, so a new bridge shares no record with any
+   earlier activity (same statement as C10_new_bridge_clean). *)
+Theorem C01_new_bridge_clean : ∀ c bank0 h b,
+  let s := (run c (C10Proofs.genesis bank0) h).1 in
+  (next_bridge s ≤ b)%N →
+  configs s !! b = None ∧ next_seq s !! b = None ∧ next_out s !! b = None ∧
+  (∀ i, outputs s !! (b, i) = None) ∧ (∀ x, (b, x) ∉ proven s) ∧ (∀ d, pairs s !! (b, d) = None) ∧
+  (∀ i, batches s !! (b, i) = None) ∧ (∀ ev, ev ∈ elog s → e_bridge ev ≠ b) ∧
+  (∀ y, y ∈ plog s → y_bridge y ≠ b).
+Proof. exact C10Proofs.c10_new_bridge_clean. Qed.
+
 (* The escrow numbering used by the correspondence harness satisfies [escrow_ok]. *)
 Theorem C01_escrow_numbering_ok : ∀ k : l1case, (∀ b, (1000 + b)%N ≠ k_pool k) → escrow_ok (cfg_of k).
 Proof. exact escrow_id_ok. Qed.
@@ -89,5 +102,6 @@ Print Assumptions C01_outflow_only_own_withdrawal.
 Print Assumptions C01_isolation.
 Print Assumptions C01_isolation_balances.
 Print Assumptions C01_other_escrow_untouched.
+Print Assumptions C01_new_bridge_clean.
 Print Assumptions C01_escrow_numbering_ok.
 Print Assumptions C01_example.
